@@ -4,6 +4,8 @@
 //   topx <nmol> {<name> <n> m1 .. mn}*   atomistic Topology with molecules of several types
 //   map <file.xml[;file2.xml]> [<pattern>]   CGEngine::LoadMoleculeType (';'-separated list), optional
 //                                 CGEngine::AddIgnore(pattern), CreateCGTopology
+//   mass m1 .. mn                 Bead::setMass on atom i of EVERY molecule (all molecules have n atoms):
+//                                 a mass changed through the public API after the map was created
 //   remap                         a second CG topology + map created by the SAME CGEngine
 //   frame b00 .. b22  then per atom (molecule by molecule):
 //         hp x y z hv vx vy vz hf fx fy fz
@@ -108,6 +110,13 @@ int main() {
         if (!ignore.empty()) engine->AddIgnore(ignore);
         tmap = engine->CreateCGTopology(*top, *cgtop);
         std::cout << "\nok " << cgtop->BeadCount() << " molecules " << cgtop->MoleculeCount() << std::endl;
+      } else if (cmd == "mass") {
+        std::vector<double> mm;
+        double m;
+        while (in >> m) mm.push_back(m);
+        if (mm.empty() || top->BeadCount() % Index(mm.size()) != 0) throw std::runtime_error("driver: bad mass line");
+        for (Index i = 0; i < top->BeadCount(); ++i) top->getBead(i)->setMass(mm[i % mm.size()]);
+        std::cout << "ok" << std::endl;
       } else if (cmd == "remap") {
         if (!engine) throw std::runtime_error("driver: no engine");
         tmap.reset();
